@@ -601,6 +601,11 @@ func c12One(c *Ctx, m *Model, cs c12Case) {
 		rep.Fail("impl_ne_spec", nil, cs, map[string]interface{}{"what": "an operation that does not comply with the limits was not rejected by the limit check", "error": fmt.Sprint(callErr), "statements": stmts})
 		return
 	}
+	if limitErr && len(stmts) > 0 {
+		// the property, directly: a call that does not comply returns an error without touching the database
+		rep.Fail("impl_ne_spec", nil, cs, map[string]interface{}{"what": "a call refused by the limit check had already sent statements to the database", "error": callErr.Error(), "statements": stmts})
+		return
+	}
 	if !mErr && limitErr {
 		rep.Fail("impl_ne_model", nil, cs, map[string]interface{}{"what": "an operation the model accepts was rejected by the limit check", "error": callErr.Error(), "statements": stmts})
 		return
